@@ -696,12 +696,16 @@ Proof. intros H E1 E2. destruct pk; cbn [prev_ok] in *; rewrite ?E1, ?E2; exact 
 Lemma chain_nl R toks : chain R toks -> chain (10 :: R) (nl_tok :: toks).
 Proof. intros H. econstructor; [apply step_nl | exact H]. Qed.
 
-Lemma relex_from cfg : forall ss st prev pk tcs,
+(* [tail] = what follows the written chunks (nothing, or the line break the .p8 writer supplies) *)
+Lemma relex_from_tail cfg tail ttoks :
+  (forall pk prev st, prev_ok pk prev st -> right_ok pk tail) -> chain tail ttoks ->
+  forall ss st prev pk tcs,
   Forall shaped ss -> inv cfg (w_fac st) -> tchunks_from cfg st ss = Ok tcs -> prev_ok pk prev st ->
-  right_ok pk (txt (space_tagged prev tcs)) /\ chain (txt (space_tagged prev tcs)) (tks (space_tagged prev tcs)).
+  right_ok pk (txt (space_tagged prev tcs) ++ tail) /\
+  chain (txt (space_tagged prev tcs) ++ tail) (tks (space_tagged prev tcs) ++ ttoks).
 Proof.
-  induction ss as [|s r IH]; intros st prev pk tcs Hsh Hinv Ht Hp.
-  - injection Ht as <-. split; [eapply right_ok_nil, Hp | constructor].
+  intros Htail Hctail. induction ss as [|s r IH]; intros st prev pk tcs Hsh Hinv Ht Hp.
+  - injection Ht as <-. split; [eapply Htail, Hp | exact Hctail].
   - inversion Hsh as [|? ? Hs Hr]; subst. cbn [tchunks_from] in Ht.
     destruct (tstep cfg st s) as [[st' cs]|e] eqn:Et; cbn [bind] in Ht; [|discriminate].
     destruct (tchunks_from cfg st' r) as [rest|e] eqn:Er; cbn [bind] in Ht; [|discriminate].
@@ -718,7 +722,7 @@ Proof.
         destruct (IH st1 [10] PStart rest Hr Hinv Er (or_intror eq_refl)) as (HR & HC) end.
       cbn [app]. rewrite space_tagged_one. cbn [space_tagged]. rewrite fuses_nl.
       change (([10], nl_tok) :: space_tagged [10] rest) with ([([10], nl_tok)] ++ space_tagged [10] rest).
-      rewrite !txt_app, !tks_app. change (txt [([10], nl_tok)]) with [10]. change (tks [([10], nl_tok)]) with [nl_tok].
+      rewrite !txt_app, !tks_app, <- !app_assoc. change (txt [([10], nl_tok)]) with [10]. change (tks [([10], nl_tok)]) with [nl_tok].
       eapply (emit prev pk st (s_raw s) s PComment); try eassumption.
       * destruct Hh; subst h; lia.
       * destruct Hh; subst h; reflexivity.
@@ -740,14 +744,17 @@ Proof.
            match type of Er with tchunks_from _ ?st1 _ = _ => eapply (IH st1 prev PStart rest Hr Hinv Er) end. exact Hp.
         -- match type of Er with tchunks_from _ ?st1 _ = _ =>
              destruct (IH st1 [10] PStart rest Hr Hinv Er (or_intror eq_refl)) as (HR & HC) end.
-           cbn [app space_tagged]. rewrite fuses_nl. unfold txt, tks. cbn [map fst snd concat app]. split.
+           cbn [app space_tagged]. rewrite fuses_nl.
+           change (([10], nl_tok) :: space_tagged [10] rest) with ([([10], nl_tok)] ++ space_tagged [10] rest).
+           rewrite txt_app, tks_app, <- !app_assoc. change (txt [([10], nl_tok)]) with [10].
+           change (tks [([10], nl_tok)]) with [nl_tok]. cbn [app]. split.
            ++ eapply right_ok_ws; [exact Hp | left; reflexivity].
            ++ apply chain_nl, HC.
       * (* a later comment *) injection Et as <- <-. cbn [app]. match type of Er with tchunks_from _ ?st1 _ = _ => eapply (IH st1 prev pk rest Hr Hinv Er) end. eapply prev_ok_state; [exact Hp | reflexivity | reflexivity].
       * (* string *) injection Et as <- <-. destruct (shaped_string s Hs K) as ((h & r0 & Hc & Hh) & Hu).
         match type of Er with tchunks_from _ ?st1 _ = _ =>
           destruct (IH st1 (spec_code s) PSelf rest Hr Hinv Er eq_refl) as (HR & HC) end.
-        cbn [app]. rewrite space_tagged_one, txt_app, tks_app.
+        cbn [app]. rewrite space_tagged_one, txt_app, tks_app, <- !app_assoc.
         eapply (emit prev pk st (spec_code s) (out_tok s []) PSelf); try eassumption.
         -- destruct Hh as [->|[->| ->]]; lia.
         -- destruct Hh as [->|[->| ->]]; reflexivity.
@@ -759,8 +766,8 @@ Proof.
         match type of Er with tchunks_from _ ?st1 _ = _ =>
           destruct (IH st1 (s_raw s) PNum rest Hr Hinv Er (conj eq_refl (conj eq_refl Hst))) as (HR & HC) end.
         destruct (w_lnk st) eqn:Elnk; cbn [tsp app].
-        -- rewrite space_tagged_sp, txt_app, tks_app. eapply (emit_sp prev pk st (s_raw s) s PNum); eassumption.
-        -- rewrite space_tagged_one, txt_app, tks_app. eapply (emit prev pk st (s_raw s) s PNum); try eassumption.
+        -- rewrite space_tagged_sp, txt_app, tks_app, <- !app_assoc. eapply (emit_sp prev pk st (s_raw s) s PNum); eassumption.
+        -- rewrite space_tagged_one, txt_app, tks_app, <- !app_assoc. eapply (emit prev pk st (s_raw s) s PNum); try eassumption.
            left. destruct pk; cbn [prev_ok] in Hp; try exact I; rewrite Elnk in Hp; destruct Hp; discriminate.
       * (* name *)
         assert (Hcode : spec_code s = s_raw s) by (unfold spec_code; rewrite K; reflexivity). rewrite Hcode in *.
@@ -772,9 +779,9 @@ Proof.
            match type of Er with tchunks_from _ ?st1 _ = _ =>
              destruct (IH st1 [63] PSelf rest Hr Hinv Er eq_refl) as (HR & HC) end.
            destruct (w_lnk st) eqn:Elnk; cbn [tsp app].
-           ++ rewrite space_tagged_sp, txt_app, tks_app.
+           ++ rewrite space_tagged_sp, txt_app, tks_app, <- !app_assoc.
               eapply (emit_sp prev pk st [63] (mk SName [63] [63]) PSelf); try eassumption; try reflexivity.
-           ++ rewrite space_tagged_one, txt_app, tks_app.
+           ++ rewrite space_tagged_one, txt_app, tks_app, <- !app_assoc.
               eapply (emit prev pk st [63] (mk SName [63] [63]) PSelf _ _ 63 []); try eassumption; try reflexivity; try lia.
               left. destruct pk; cbn [prev_ok] in Hp; try exact I; rewrite Elnk in Hp; destruct Hp; discriminate.
         -- assert (Hon : is_name o = true /\ mem_bytes o spec_keywords = false).
@@ -784,9 +791,9 @@ Proof.
            match type of Er with tchunks_from _ ?st1 _ = _ =>
              destruct (IH st1 o PWord rest Hr Hinv' Er (conj eq_refl eq_refl)) as (HR & HC) end.
            destruct (w_lnk st) eqn:Elnk; cbn [tsp app].
-           ++ rewrite space_tagged_sp, txt_app, tks_app.
+           ++ rewrite space_tagged_sp, txt_app, tks_app, <- !app_assoc.
               eapply (emit_sp prev pk st o (mk SName o o) PWord); try eassumption. apply name_unit; assumption.
-           ++ rewrite space_tagged_one, txt_app, tks_app.
+           ++ rewrite space_tagged_one, txt_app, tks_app, <- !app_assoc.
               eapply (emit prev pk st o (mk SName o o) PWord); try eassumption.
               ** left. destruct pk; cbn [prev_ok] in Hp; try exact I; rewrite Elnk in Hp; destruct Hp; discriminate.
               ** apply name_unit; assumption.
@@ -803,7 +810,7 @@ Proof.
         rewrite Hot.
         match type of Er with tchunks_from _ ?st1 _ = _ =>
           destruct (IH st1 (58 :: 58 :: o ++ [58; 58]) PSelf rest Hr Hinv' Er eq_refl) as (HR & HC) end.
-        cbn [app]. rewrite space_tagged_one, txt_app, tks_app.
+        cbn [app]. rewrite space_tagged_one, txt_app, tks_app, <- !app_assoc.
         eapply (emit prev pk st (58 :: 58 :: o ++ [58; 58]) _ PSelf _ _ 58); try eassumption; try reflexivity; try lia.
         -- right. split; [reflexivity | right; reflexivity].
         -- intros R _. change ((58 :: 58 :: o ++ [58; 58]) ++ R) with (58 :: 58 :: (o ++ [58; 58]) ++ R).
@@ -814,8 +821,8 @@ Proof.
         match type of Er with tchunks_from _ ?st1 _ = _ =>
           destruct (IH st1 (s_raw s) PWord rest Hr Hinv Er (conj eq_refl eq_refl)) as (HR & HC) end.
         destruct (w_lnk st) eqn:Elnk; cbn [tsp app].
-        -- rewrite space_tagged_sp, txt_app, tks_app. eapply (emit_sp prev pk st (s_raw s) s PWord); eassumption.
-        -- rewrite space_tagged_one, txt_app, tks_app. eapply (emit prev pk st (s_raw s) s PWord); try eassumption.
+        -- rewrite space_tagged_sp, txt_app, tks_app, <- !app_assoc. eapply (emit_sp prev pk st (s_raw s) s PWord); eassumption.
+        -- rewrite space_tagged_one, txt_app, tks_app, <- !app_assoc. eapply (emit prev pk st (s_raw s) s PWord); try eassumption.
            left. destruct pk; cbn [prev_ok] in Hp; try exact I; rewrite Elnk in Hp; destruct Hp; discriminate.
       * (* symbol *) injection Et as <- <-. destruct (shaped_symbol s Hs K) as (Hx & Hsx).
         assert (Hcode : spec_code s = s_raw s) by (unfold spec_code; rewrite K; reflexivity). rewrite Hcode in *.
@@ -823,9 +830,30 @@ Proof.
         assert (Hot : out_tok s [] = s) by (unfold out_tok; rewrite K; reflexivity). rewrite Hot.
         match type of Er with tchunks_from _ ?st1 _ = _ =>
           destruct (IH st1 (s_raw s) (PSym (s_raw s)) rest Hr Hinv Er (conj eq_refl (conj Hx eq_refl))) as (HR & HC) end.
-        cbn [app]. rewrite space_tagged_one, txt_app, tks_app.
+        cbn [app]. rewrite space_tagged_one, txt_app, tks_app, <- !app_assoc.
         eapply (emit prev pk st (s_raw s) s (PSym (s_raw s))); try eassumption.
         -- right. split; assumption.
         -- intros R HRr. rewrite Hsx at 2. destruct R as [|c R]; [rewrite app_nil_r; apply spec_step_symbol_end, Hx|].
            apply spec_step_symbol; assumption.
 Qed.
+
+Lemma relex_from cfg : forall ss st prev pk tcs,
+  Forall shaped ss -> inv cfg (w_fac st) -> tchunks_from cfg st ss = Ok tcs -> prev_ok pk prev st ->
+  right_ok pk (txt (space_tagged prev tcs)) /\ chain (txt (space_tagged prev tcs)) (tks (space_tagged prev tcs)).
+Proof.
+  intros ss st prev pk tcs Hsh Hinv Ht Hp.
+  destruct (relex_from_tail cfg [] [] (fun pk prev st H => right_ok_nil pk prev st H) chain_nil ss st prev pk tcs Hsh Hinv Ht Hp) as (H1 & H2).
+  rewrite !app_nil_r in *. auto.
+Qed.
+
+(* the same with a final line break behind the chunks *)
+Lemma relex_from_nl cfg : forall ss st prev pk tcs,
+  Forall shaped ss -> inv cfg (w_fac st) -> tchunks_from cfg st ss = Ok tcs -> prev_ok pk prev st ->
+  chain (txt (space_tagged prev tcs) ++ [10]) (tks (space_tagged prev tcs) ++ [nl_tok]).
+Proof.
+  intros ss st prev pk tcs Hsh Hinv Ht Hp.
+  refine (proj2 (relex_from_tail cfg [10] [nl_tok] _ _ ss st prev pk tcs Hsh Hinv Ht Hp)).
+  - intros pk' prev' st' H. eapply right_ok_ws; [exact H | left; reflexivity].
+  - apply chain_nl, chain_nil.
+Qed.
+
